@@ -285,6 +285,8 @@ def close(a, b, rel=1e-9, abs_=1e-12):
         return False
     if fa == fb:
         return True
+    if math.isinf(fa) or math.isinf(fb):
+        return False        # an infinity is close to nothing but itself (inf <= rel * inf would hold)
     return abs(fa - fb) <= max(abs_, rel * max(abs(fa), abs(fb)))
 
 
